@@ -127,7 +127,7 @@ func (g *vfGen) lockOp() vfOp {
 		if pick < 0 {
 			// every id is queued on this key: use a fresh id outside the pool
 			pick = g.nLockIds + r.Intn(1000)
-			for (k != nil && k.waiterByLockId(pick) != nil) || g.sh.e.lockIdBusy(op.Db, op.Key, pick) {
+			for (k != nil && k.waiterByLockId(pick) != nil) || g.sh.e.lockIdBusy(op.Db, op.Key, pick) || (g.p.NoRelock && k != nil && k.hold(pick) != nil) {
 				pick++
 			}
 		}
